@@ -28,7 +28,7 @@ def _explore_worker(work):
 BUILTIN_NAMES = {"len", "range", "enumerate", "isinstance", "issubclass", "type", "int", "bytes", "bytearray", "str",
                  "bool", "min", "max", "sorted", "list", "tuple", "dict", "getattr", "hasattr", "abs", "ord", "chr",
                  "repr", "filter", "zip", "any", "all", "print", "set", "sum", "map", "iter", "next", "open",
-                 "setattr", "callable", "id", "hash", "reversed", "object", "super", "float", "memoryview"}
+                 "setattr", "callable", "id", "hash", "reversed", "object", "super", "float", "memoryview", "pow"}
 BUILTIN_TYPES = {"int", "bool", "bytes", "str", "list", "tuple", "dict", "bytearray", "float", "NoneType", "object",
                  "memoryview", "set"}
 
@@ -244,6 +244,8 @@ class Engine:
     def stdlib_attr(self, I, mod, name):
         m = STDLIB.get(mod)
         if m is None:
+            if getattr(self, "auto_opaque", False) and not mod.startswith("paramiko"):
+                return VOpaque("lib:" + name, None)
             raise Unsupported("module %s" % mod)
         if name not in m:
             return VFunc("%s.%s" % (mod, name))
